@@ -1680,7 +1680,7 @@ def part_history(ctx, res, EF, r, n=None):
     shrunk = set()
     lines, checks = [], []
     ncorr = ctx.n(60, 400)
-    budget = [ctx.n(6000, 120000)]           # quadrature nodes the model may evaluate in this run (driver time)
+    budget = [ctx.n(6000, 60000)]           # quadrature nodes the model may evaluate in this run (driver time)
 
     def hist_line(trace, shape, case):
         """the same history through the model (KawinV.Elastic.hrun): setter flags, final description, every compute result"""
@@ -1753,7 +1753,7 @@ def part_history(ctx, res, EF, r, n=None):
                 again = [x for x in run_history(EF, shape, hs, only=f['key'])[0] if x['key'] == f['key']]
                 f2 = again[0] if again else f
             res.violate(f['key'], f2['what'], dict(describe_history(shape, hs), shrunk_from=f['index'] + 1, case=k), f2['observed'], f2['required'])
-    for k in range(n or ctx.n(260, 3000)):
+    for k in range(n or ctx.n(260, 2000)):
         attempt(res, 'history', k, _case_history)
     return lines, checks
 
